@@ -103,8 +103,10 @@ func verifSeed() uint64 {
     p = GOROOT + "/src/runtime/select.go"
     s = open(p).read()
     a = "\t\tj := cheaprandn(uint32(norder + 1))\n"
-    if s.count(a) == 1:
+    a2 = "\tpollorder = pollorder[:norder]\n"
+    if s.count(a) == 1 and s.count(a2) == 1:
         s = s.replace(a, "\t\tj := verifSelJ(uint32(norder + 1))\n")
+        s = s.replace(a2, a2 + "\tverifSelFix(pollorder)\n")
         write_if_changed(gen + "/select.go", s)
         ov[p] = gen + "/select.go"
     else:
@@ -115,15 +117,22 @@ import "internal/runtime/maps"
 
 var verifSelMode uint32
 
-// verifSelJ: mode 0 stock random; 1 = source order of the cases; 2 = reverse source order.
+// verifSelJ / verifSelFix: mode 0 stock random poll order; 1 = scase index order; 2 = the exact reverse.
+// (The compiler lays receive cases out in reverse source order, so for receive-only selects mode 2 is source order.)
 func verifSelJ(n uint32) uint32 {
-	switch verifSelMode {
-	case 1:
-		return n - 1
-	case 2:
-		return 0
+	if verifSelMode == 0 {
+		return cheaprandn(n)
 	}
-	return cheaprandn(n)
+	return n - 1
+}
+
+func verifSelFix(p []uint16) {
+	if verifSelMode != 2 {
+		return
+	}
+	for i, j := 0, len(p)-1; i < j; i, j = i+1, j-1 {
+		p[i], p[j] = p[j], p[i]
+	}
 }
 
 // VerifSetMapRot pins (on=true) map iteration to start at rotation r, or restores stock behaviour.
